@@ -406,8 +406,13 @@ Section WithParse.
      else if N.eqb et 26 then sp <- uat 4 d 0 ;; fl <- uat 2 d 4 ;; _ <- sl d 6 16 ;; ms <- dec_tlvmaps (S (length d)) d 16 ;; Ok [T KTlvTableReply [VN sp; VN fl] ms]
      else if N.eqb et 2300 then if blen d <? 8 then Err else vs <- read_vals d [(0, 4); (4, 2); (6, 2)] ;; Ok [T KBundleCtrl vs []]
      else if N.eqb et 2301 then
-       id <- uat 4 d 0 ;; fl <- uat 2 d 6 ;; r <- from d 8 ;; m <- parse_inner r ;;
-       ps <- dec_props (S (length d)) d (8 + glen m) ;; Ok [T KBundleAdd [VN id; VN fl] (m :: ps)]
+       (* the embedded message ends where its own header says (fix D47); the properties follow *)
+       id <- uat 4 d 0 ;; fl <- uat 2 d 6 ;;
+       if blen d <? 12 then Err else
+       ml <- uat 2 d 10 ;;
+       if (ml <? 8) || (blen d - 8 <? ml) then Err else
+       r <- sl d 8 (8 + ml) ;; m <- parse_inner r ;;
+       ps <- dec_props (S (length d)) d (8 + ml) ;; Ok [T KBundleAdd [VN id; VN fl] (m :: ps)]
      else Panic)%res.
 
   Definition parse_body (d : list byte) : res tree :=
